@@ -33,6 +33,7 @@ def core():
     # --- end-of-input look-ahead
     D.append(Def('eoi_dollar', variants=[
         Var('AEnd', [R('a$', prio=3)]), Var('A', [T('a')]), Var('B', [R('b+')])], tags=('look', 'quick')))
+    D.append(Def('eoi_only', variants=[Var('AEnd', [R('a$')]), Var('Bs', [R('b+c$')]), Var('B', [T('b')])], tags=('look', 'quick')))
     D.append(Def('word_boundary', utf8=False, variants=[
         Var('If', [R(rb'if\b')]), Var('Id', [R(rb'[a-z]+', prio=1)]), Var('Sp', [T(b' ')])], tags=('look', 'quick', 'loop')))
     D.append(Def('look_str', skips=[R(' +')], variants=[
